@@ -1,3 +1,503 @@
-/- Property theorems for C12 — to be filled in. -/
+/-
+  C12 — Replaying the event log reproduces the stored state.
+
+  Model: `Stab.Replay` (`EventReplayer._apply_event` fold, `rebuild_workflow_state` with
+  `as_of_sequence` and a latest snapshot).  Tables regenerated from the source on every run:
+  `Stab.Gen.EventMap` (event types, recorder functions, the fold table of `replay.py`, the fields
+  `_load_state_from_snapshot` restores, the comparison operators / SQL of the rebuild) and
+  `Stab.Gen.EventSites` (every call of a recorder in a handler, with the status just written).
+
+  1. tables = model (`gen_*`): a change of `replay.py`/recorders breaks a proof obligation.
+  2. pure theorems for ALL logs: `rebuild_asof_eq_prefix_fold`, `asof_events_are_a_prefix`,
+     `snapshot_plus_tail_eq_full_partial` (all fields but the two time stamps),
+     `snapshot_plus_tail_eq_full_iff_loads_times` (the unrestricted statement holds iff the loader
+     restores `start_time/end_time`), instantiated with the generated flag in
+     `snapshot_plus_tail_eq_full_for_source`; `snapshot_plus_tail_eq_full_counterexample` is the
+     concrete witness for the loader as shipped (finding F3).
+  3. engine level, over an abstract history of durable status writes with the events recorded for
+     them: `recorder_event_folds_to_written_status` (table level, every recorder call site),
+     `replay_agrees_on_covered` (history level).
+-/
+import Stab.Lemmas.Replay
+import Stab.Gen.EventMap
+import Stab.Gen.EventSites
+
 namespace Stab.Props.C12
+open Stab Stab.Replay
+
+/-! ## 1. generated tables = model -/
+
+def kindLower : Kind → String
+  | .workflow => "workflow" | .stage => "stage" | .task => "task"
+
+def kindOfLower? : String → Option Kind
+  | "workflow" => some .workflow | "stage" => some .stage | "task" => some .task | _ => none
+
+def effString : StatusEffect → String
+  | .const s => "const:" ++ s
+  | .data d => "data:" ++ d
+  | .none => "none"
+
+/-- status effect of `(kind, event type)` in the table generated from `replay.py` -/
+def genEffect (k : Kind) (t : EType) : String :=
+  match Stab.Gen.EventMap.foldTable.find? (fun r => r.1 == kindLower k && r.2.1 == t.name) with
+  | some r => r.2.2.1
+  | none => "none"
+
+/-- fields assigned per `(kind, event type)` — hand-written counterpart of the generated column -/
+def assignedFields : Kind → EType → List String
+  | .workflow, .workflowCreated => ["application", "name"]
+  | .workflow, .workflowStarted => ["start_time", "status", "context"]
+  | .workflow, .workflowCompleted => ["end_time", "status"]
+  | .workflow, .workflowFailed => ["end_time", "status"]
+  | .workflow, .workflowCanceled => ["end_time", "status"]
+  | .workflow, .workflowPaused => ["status"]
+  | .workflow, .workflowResumed => ["status"]
+  | .workflow, .contextUpdated => ["context"]
+  | .stage, .stageStarted => ["status", "start_time"]
+  | .stage, .stageCompleted => ["status", "end_time", "outputs"]
+  | .stage, .stageFailed => ["status", "end_time", "error"]
+  | .stage, .stageSkipped => ["status", "skip_reason"]
+  | .stage, .stageCanceled => ["status"]
+  | .task, .taskStarted => ["status", "start_time"]
+  | .task, .taskCompleted => ["status", "end_time", "outputs"]
+  | .task, .taskFailed => ["status", "end_time", "error"]
+  | .task, .taskRetried => ["retry_count"]
+  | _, _ => []
+
+def genAssigned (k : Kind) (t : EType) : List String :=
+  match Stab.Gen.EventMap.foldTable.find? (fun r => r.1 == kindLower k && r.2.1 == t.name) with
+  | some r => r.2.2.2
+  | none => []
+
+/-- the `EventType` enum of the source is the model's, in declaration order -/
+theorem gen_event_types_eq_model :
+    Stab.Gen.EventMap.eventTypes.map (·.1) = EType.all.map EType.name := by decide
+
+theorem gen_entity_types_eq_model :
+    Stab.Gen.EventMap.entityTypes.map (·.1) = [Kind.workflow, .stage, .task].map Kind.name := by decide
+
+/-- `_apply_event` dispatches each entity type to its own fold function -/
+theorem gen_dispatch_eq_model :
+    Stab.Gen.EventMap.foldDispatch =
+      [("WORKFLOW", "_apply_workflow_event"), ("STAGE", "_apply_stage_event"), ("TASK", "_apply_task_event")] := by
+  decide
+
+/-- **fold table.** For every (entity type, event type) the status effect extracted from `replay.py`
+    is the model's `statusEffect` — e.g. mapping TASK_FAILED to another default breaks this. -/
+theorem gen_fold_table_eq_model (k : Kind) (t : EType) :
+    genEffect k t = effString (statusEffect k t) := by
+  cases k <;> cases t <;> decide
+
+/-- every row of the generated fold table is a known (kind, event type) -/
+theorem gen_fold_table_rows_known :
+    Stab.Gen.EventMap.foldTable.all (fun r => (kindOfLower? r.1).isSome && (EType.ofName? r.2.1).isSome) = true := by
+  decide
+
+theorem gen_fold_fields_eq_model (k : Kind) (t : EType) : genAssigned k t = assignedFields k t := by
+  cases k <;> cases t <;> decide
+
+/-- entries created for unseen stages / tasks carry exactly the keys the model creates -/
+theorem gen_entry_keys_eq_model (e : Event) :
+    (stageInit e).map (·.1) = Stab.Gen.EventMap.stageEntryKeys
+    ∧ (taskInit e).map (·.1) = Stab.Gen.EventMap.taskEntryKeys := by
+  constructor <;> simp [stageInit, taskInit, Stab.Gen.EventMap.stageEntryKeys, Stab.Gen.EventMap.taskEntryKeys]
+
+/-- `rebuild_workflow_state`: snapshot usable iff `snapshot.sequence <= as_of`, events kept iff
+    `e.sequence <= as_of`, start sequence = `snapshot.sequence`, and the store query is
+    `sequence > ? ORDER BY sequence ASC` — the comparisons `snapshotUsable`, `upTo`, `eventsAfter` model. -/
+theorem gen_rebuild_shape :
+    Stab.Gen.EventMap.snapshotGuardOp = "LtE" ∧ Stab.Gen.EventMap.asOfFilterOp = "LtE"
+    ∧ Stab.Gen.EventMap.startSequenceFrom = "snapshot.sequence"
+    ∧ Stab.Gen.EventMap.workflowQuery
+        = "SELECT * FROM events WHERE workflow_id = ? AND sequence > ? ORDER BY sequence ASC" := by
+  decide
+
+/-- the snapshot loader restores status, application, name, context, stages and tasks
+    (whether it restores the two time stamps is `snapshotLoadsTimes`) -/
+theorem gen_snapshot_loader_fields :
+    ["application", "context", "name", "stages", "status", "tasks"].all
+      (fun f => Stab.Gen.EventMap.snapshotLoadedFields.contains f) = true
+    ∧ Stab.Gen.EventMap.snapshotLoadedFields.all
+      (fun f => ["application", "context", "name", "stages", "status", "tasks", "workflow_id", "start_time", "end_time"].contains f) = true := by
+  decide
+
+/-! ## 2. pure theorems: as-of = prefix fold, snapshot + tail = full -/
+
+/-- **Rebuilding as of sequence `n` equals folding exactly the events with sequence ≤ n**
+    (all logs, all `n`; the loader flag is irrelevant without a snapshot). -/
+theorem rebuild_asof_eq_prefix_fold (lt : Bool) (log : List Event) (n : Nat) :
+    rebuild lt log (some n) none
+      = replay State.empty (log.filter (fun e => decide (0 < e.seq) && decide (e.seq ≤ n))) := by
+  simp [rebuild, upTo, eventsAfter, List.filter_filter, Bool.and_comm]
+
+/-- without `as_of`: the fold of the whole log -/
+theorem rebuild_full_eq_fold (lt : Bool) (log : List Event) :
+    rebuild lt log none none = replay State.empty (log.filter (fun e => decide (0 < e.seq))) := by
+  simp [rebuild, upTo, eventsAfter]
+
+/-- on the table order the events with sequence ≤ n form a prefix of the log, the rest a suffix -/
+theorem asof_events_are_a_prefix (log : List Event) (hs : Sorted log) (n : Nat) :
+    log = log.filter (fun e => decide (e.seq ≤ n)) ++ log.filter (fun e => decide (n < e.seq)) := by
+  have h := filter_split_at log hs (fun _ => true) n
+  have ht : log.filter (fun _ => true) = log := List.filter_eq_self.mpr (fun _ _ => rfl)
+  rw [ht] at h
+  simpa using h
+
+/-- a snapshot later than the requested sequence is ignored -/
+theorem rebuild_ignores_later_snapshot (lt : Bool) (log : List Event) (n : Nat) (sn : Snapshot)
+    (h : n < sn.seq) : rebuild lt log (some n) (some sn) = rebuild lt log (some n) none := by
+  have : ¬ sn.seq ≤ n := by omega
+  simp [rebuild, snapshotUsable, this]
+
+/-- the events a snapshot-based rebuild still has to apply, and the full list, on a sorted log -/
+theorem upTo_split (log : List Event) (hs : Sorted log) (k : Nat) (asOf : Option Nat)
+    (hu : ∀ n, asOf = some n → k ≤ n) :
+    upTo (eventsAfter log 0) asOf
+      = upTo (eventsAfter log 0) (some k) ++ upTo (eventsAfter log k) asOf := by
+  cases asOf with
+  | none =>
+    simp only [upTo, eventsAfter, List.filter_filter]
+    have h := filter_split_at log hs (fun e => decide (e.seq > 0)) k
+    rw [h]
+    congr 1
+    · apply List.filter_congr; intro e _; simp [Bool.and_comm]
+    · apply List.filter_congr; intro e _
+      by_cases h1 : k < e.seq <;> simp [h1]; omega
+  | some n =>
+    have hkn : k ≤ n := hu n rfl
+    simp only [upTo, eventsAfter, List.filter_filter]
+    have h := filter_split_at log hs (fun e => decide (e.seq ≤ n) && decide (e.seq > 0)) k
+    rw [h]
+    congr 1
+    · apply List.filter_congr; intro e _
+      by_cases h1 : e.seq ≤ k <;> by_cases h2 : 0 < e.seq <;> simp [h1, h2] <;> omega
+    · apply List.filter_congr; intro e _
+      by_cases h1 : k < e.seq <;> by_cases h2 : e.seq ≤ n <;> simp [h1, h2] <;> omega
+
+/-- **Snapshot + later events = full replay, for every field a snapshot carries** (all sorted logs, all
+    snapshot positions `k`, all `as_of`, both loaders).  The snapshot state may be any state that
+    agrees with the full replay as of `k` on the carried fields — in particular one produced by a
+    rebuild that itself started from an earlier snapshot.
+
+    Full statement (`=` instead of `EqModTimes`): see `snapshot_plus_tail_eq_full_iff_loads_times`;
+    it is FALSE for the loader as shipped (`snapshot_plus_tail_eq_full_counterexample`), which is
+    why this one carries `_partial`.  What is missing is exactly `start_time` and `end_time`. -/
+theorem snapshot_plus_tail_eq_full_partial (lt : Bool) (log : List Event) (hs : Sorted log)
+    (k : Nat) (asOf : Option Nat) (st : State)
+    (hst : EqModTimes st (rebuild lt log (some k) none)) :
+    EqModTimes (rebuild lt log asOf (some { seq := k, state := st })) (rebuild lt log asOf none) := by
+  by_cases hu : snapshotUsable { seq := k, state := st } asOf = true
+  · have hu' : ∀ n, asOf = some n → k ≤ n := by
+      intro n hn; subst hn; simpa [snapshotUsable] using hu
+    simp only [rebuild, hu, if_true]
+    rw [upTo_split log hs k asOf hu', replay_append]
+    apply replay_congr_modTimes
+    exact (load_eqModTimes lt _).trans (by simpa [rebuild] using hst)
+  · simp only [rebuild, hu]
+    exact EqModTimes.refl _
+
+/-- statuses (workflow, every stage, every task) agree between snapshot-based and full rebuild -/
+theorem snapshot_plus_tail_same_statuses (lt : Bool) (log : List Event) (hs : Sorted log)
+    (k : Nat) (asOf : Option Nat) (kind : Kind) (id : String) :
+    statusOf (rebuild lt log asOf (some { seq := k, state := rebuild lt log (some k) none })) kind id
+      = statusOf (rebuild lt log asOf none) kind id :=
+  statusOf_congr_modTimes
+    (snapshot_plus_tail_eq_full_partial lt log hs k asOf _ (EqModTimes.refl _)) kind id
+
+/-- with a loader that restores the time stamps the unrestricted statement holds -/
+theorem snapshot_plus_tail_eq_full_of_loads_times (log : List Event) (hs : Sorted log)
+    (k : Nat) (asOf : Option Nat) :
+    rebuild true log asOf (some { seq := k, state := rebuild true log (some k) none })
+      = rebuild true log asOf none := by
+  generalize hst : rebuild true log (some k) none = st
+  by_cases hu : snapshotUsable { seq := k, state := st } asOf = true
+  · have hu' : ∀ n, asOf = some n → k ≤ n := by
+      intro n hn; subst hn; simpa [snapshotUsable] using hu
+    simp only [rebuild, hu, if_true]
+    rw [upTo_split log hs k asOf hu', replay_append]
+    subst hst
+    simp [load, rebuild]
+  · simp only [rebuild, hu]
+    rfl
+
+/-- witness log: one WORKFLOW_STARTED event -/
+def witnessLog : List Event :=
+  [{ seq := 1, kind := .workflow, eid := "w", etype := .workflowStarted, ts := "t1" }]
+
+/-- **F3 (counterexample to the unrestricted statement for the loader as shipped):** snapshot at
+    sequence 1 of the log `[WORKFLOW_STARTED@1]`; the full replay has `start_time = t1`, the
+    snapshot-based one has `start_time = None`. -/
+theorem snapshot_plus_tail_eq_full_counterexample :
+    ¬ (∀ (log : List Event), Sorted log → ∀ (k : Nat) (asOf : Option Nat),
+        rebuild false log asOf (some { seq := k, state := rebuild false log (some k) none })
+          = rebuild false log asOf none) := by
+  intro h
+  have h1 := h witnessLog (by simp [Sorted, witnessLog]) 1 none
+  have h2 := congrArg State.startTime h1
+  simp [rebuild, witnessLog, snapshotUsable, load, upTo, eventsAfter, replay, apply, applyWorkflow,
+    State.empty] at h2
+
+/-- the unrestricted statement holds **iff** the loader restores the time stamps -/
+theorem snapshot_plus_tail_eq_full_iff_loads_times (lt : Bool) :
+    (∀ (log : List Event), Sorted log → ∀ (k : Nat) (asOf : Option Nat),
+        rebuild lt log asOf (some { seq := k, state := rebuild lt log (some k) none })
+          = rebuild lt log asOf none) ↔ lt = true := by
+  constructor
+  · intro h
+    cases lt with
+    | true => rfl
+    | false => exact absurd h snapshot_plus_tail_eq_full_counterexample
+  · intro h; subst h
+    intro log hs k asOf
+    exact snapshot_plus_tail_eq_full_of_loads_times log hs k asOf
+
+/-- the same for the loader of the source tree being checked: "snapshot + tail = full replay on
+    ALL fields" is true of the model exactly when `_load_state_from_snapshot` passes `start_time`
+    and `end_time` on (generated flag; `false` for the code as shipped, `true` with proposed_fixes/F3.diff) -/
+theorem snapshot_plus_tail_eq_full_for_source :
+    (∀ (log : List Event), Sorted log → ∀ (k : Nat) (asOf : Option Nat),
+        rebuild Stab.Gen.EventMap.snapshotLoadsTimes log asOf
+            (some { seq := k, state := rebuild Stab.Gen.EventMap.snapshotLoadsTimes log (some k) none })
+          = rebuild Stab.Gen.EventMap.snapshotLoadsTimes log asOf none)
+      ↔ Stab.Gen.EventMap.snapshotLoadsTimes = true :=
+  snapshot_plus_tail_eq_full_iff_loads_times _
+
+/-- recording the same status event twice (e.g. a handler retried after its event was appended)
+    does not change any status -/
+theorem duplicate_event_keeps_status (s : State) (e : Event) (k : Kind) (id : String) :
+    statusOf (apply (apply s e) e) k id = statusOf (apply s e) k id := by
+  by_cases ha : About e k id
+  · obtain ⟨hk, hid⟩ := ha
+    subst hk
+    have key : statusOf (apply (apply s e) e) e.kind e.eid = statusOf (apply s e) e.kind e.eid := by
+      cases hv : (statusEffect e.kind e.etype).value e with
+      | some w => rw [statusOf_apply_effect _ e w hv, statusOf_apply_effect _ e w hv]
+      | none =>
+        have hn : statusEffect e.kind e.etype = .none := by
+          cases he : statusEffect e.kind e.etype <;> simp [he, StatusEffect.value] at hv ⊢
+        rw [statusOf_apply_noeffect _ e hn]
+    cases hid with
+    | inl hw => simp only [statusOf, hw] at key ⊢; exact key
+    | inr hid => subst hid; exact key
+  · exact statusOf_apply_frame _ e k id ha
+
+/-! ## 3. engine level: events recorded with status writes -/
+
+/-- what the fold yields for an event created by recorder row `r` when the entity's written status is `w`
+    and the handler wrote literal `lit` (or "dynamic"); `none` = the table does not justify the site -/
+def siteFoldOk (kind : Kind) (t : EType) (src lit : String) : Bool :=
+  match statusEffect kind t with
+  | .const c => lit == c
+  | .data d => src == "entity" || lit == d
+  | .none => true
+
+/-- recorder row of a callee -/
+def rowOf (callee : String) : Option (String × String × String × String) :=
+  Stab.Gen.EventMap.recorders.find? (fun r => r.1 == callee)
+
+/-- sites whose event is knowingly NOT the status just written (reviewed exceptions):
+    `StartWaitingWorkflowsHandler` records WORKFLOW_STARTED when it promotes a buffered workflow to
+    NOT_STARTED (the StartWorkflow step that follows writes RUNNING and records again). -/
+def reviewedStatusExceptions : List (String × String) :=
+  [("handlers/start_waiting_workflows.py", "record_workflow_started")]
+
+/-- table check of one recording site -/
+def siteOk (s : Stab.Gen.EventSites.Site) : Bool :=
+  s.kind == "helper-call" || reviewedStatusExceptions.contains (s.module, s.callee) ||
+  match rowOf s.callee with
+  | some (_, k, t, src) =>
+    match kindOfLower? k, EType.ofName? t with
+    | some kind, some et => siteFoldOk kind et src s.written
+    | _, _ => false
+  | none => false
+
+/-- every recorder call site of every handler passes the table check -/
+theorem all_recording_sites_ok : Stab.Gen.EventSites.sites.all siteOk = true := by decide
+
+/-- **Table-level lemma.** For every recorder call site of the handlers (generated table) that is not a
+    reviewed exception: whatever state the replayer is in, applying the event this recorder creates —
+    event type from the recorder table, `data["status"]` = the entity's status name when the recorder
+    copies it, absent otherwise — leaves the entity with exactly the status `w` the handler has just
+    written (`w` is the literal at the site, or the entity status when the site is dynamic). -/
+theorem recorder_event_folds_to_written_status
+    (site : Stab.Gen.EventSites.Site) (_hs : site ∈ Stab.Gen.EventSites.sites)
+    (hk : site.kind ≠ "helper-call") (hx : (site.module, site.callee) ∉ reviewedStatusExceptions)
+    (fn k t src : String) (hrow : rowOf site.callee = some (fn, k, t, src))
+    (kind : Kind) (et : EType) (hkind : kindOfLower? k = some kind) (het : EType.ofName? t = some et)
+    (hok : siteOk site = true)
+    (σ : State) (e : Event) (w : String)
+    (hek : e.kind = kind) (hee : e.etype = et)
+    (hw : site.written = "dynamic" ∨ site.written = w)
+    (hdata : if src = "entity" then Dict.get e.data "status" = some w else Dict.get e.data "status" = none)
+    (heff : statusEffect kind et ≠ .none) :
+    statusOf (apply σ e) kind e.eid = some w := by
+  have hok' : siteFoldOk kind et src site.written = true := by
+    have hk' : (site.kind == "helper-call") = false := by simpa using hk
+    simp only [siteOk, hk', hrow, hkind, het, Bool.false_or, Bool.or_eq_true, List.contains_iff_mem] at hok
+    rcases hok with h | h
+    · exact absurd h hx
+    · exact h
+  subst hek hee
+  apply statusOf_apply_effect
+  unfold siteFoldOk at hok'
+  cases heq : statusEffect e.kind e.etype with
+  | none => exact absurd heq heff
+  | const c =>
+    rw [heq] at hok'
+    have hlit : site.written = c := by simpa using hok'
+    -- a constant effect never comes from a dynamic site: the literal is the constant
+    cases hw with
+    | inl hd =>
+      -- dynamic sites only pass the check for data-carrying recorders
+      have : c = "dynamic" := by rw [← hlit, hd]
+      subst this
+      cases hkk : e.kind <;> cases htt : e.etype <;> simp [statusEffect, hkk, htt] at heq
+    | inr hww => simp [StatusEffect.value, ← hww, hlit]
+  | data d =>
+    rw [heq] at hok'
+    by_cases hsrc : src = "entity"
+    · simp only [hsrc, if_true] at hdata
+      simp [StatusEffect.value, Event.dgetD, hdata]
+    · simp only [hsrc, if_false] at hdata
+      have hlit : site.written = d := by simpa [hsrc] using hok'
+      cases hw with
+      | inl hd =>
+        have : d = "dynamic" := by rw [← hlit, hd]
+        subst this
+        cases hkk : e.kind <;> cases htt : e.etype <;> simp [statusEffect, hkk, htt] at heq
+      | inr hww => simp [StatusEffect.value, Event.dgetD, hdata, ← hww, hlit]
+
+/-- one durable step of the engine as far as C12 is concerned: the entity, the status written to
+    its row (if the step writes one) and the event recorded by the step (if any) -/
+structure Step where
+  kind : Kind
+  eid : String
+  write : Option String
+  event : Option Event
+  deriving Repr
+
+/-- the step is about entity `(k, id)` -/
+def Step.on (st : Step) (k : Kind) (id : String) : Prop := st.kind = k ∧ (k = .workflow ∨ st.eid = id)
+
+/-- the event log of a history (append order = sequence order) -/
+def logOf (h : List Step) : List Event := h.filterMap (·.event)
+
+/-- the status the store holds after a history: the last write to the entity -/
+def storeStatus : List Step → Kind → String → Option String
+  | [], _, _ => none
+  | st :: rest, k, id =>
+    match storeStatus rest k id with
+    | some w => some w
+    | none => if st.kind = k ∧ (k = .workflow ∨ st.eid = id) then st.write else none
+
+/-- **"Covered"**: the last status write of `(k,id)` was made by a step that recorded an event about
+    the entity whose fold effect is the written status (for the real recorders that is the table-level
+    lemma above), and no later step writes the entity's status or records a status-bearing event
+    about it. -/
+def Covered (h : List Step) (k : Kind) (id : String) (w : String) : Prop :=
+  ∃ pre st post e, h = pre ++ st :: post ∧ st.on k id ∧ st.write = some w ∧ st.event = some e
+    ∧ About e k id ∧ (statusEffect k e.etype).value e = some w
+    ∧ (∀ s' ∈ post, s'.on k id → s'.write = none)
+    ∧ (∀ s' ∈ post, ∀ e', s'.event = some e' → About e' k id → statusEffect k e'.etype = .none)
+
+theorem storeStatus_none_of_no_write (post : List Step) (k : Kind) (id : String)
+    (h : ∀ s' ∈ post, s'.on k id → s'.write = none) : storeStatus post k id = none := by
+  induction post with
+  | nil => rfl
+  | cons a rest ih =>
+    have ih' := ih (fun s' hs' => h s' (List.mem_cons_of_mem _ hs'))
+    simp only [storeStatus, ih']
+    by_cases ha : a.kind = k ∧ (k = .workflow ∨ a.eid = id)
+    · simp [ha, h a List.mem_cons_self ha]
+    · simp [ha]
+
+/-- **Replay agrees with the store on covered entities**, for every history of steps, from every
+    starting state of the replayer. -/
+theorem replay_agrees_on_covered (h : List Step) (k : Kind) (id : String) (w : String) (σ : State)
+    (hc : Covered h k id w) :
+    storeStatus h k id = some w ∧ statusOf (replay σ (logOf h)) k id = some w := by
+  obtain ⟨pre, st, post, e, hh, hon, hwr, hev, hab, heff, hpw, hpe⟩ := hc
+  subst hh
+  constructor
+  · -- store side
+    have hpost := storeStatus_none_of_no_write post k id hpw
+    have : storeStatus (st :: post) k id = some w := by
+      simp only [storeStatus, hpost]
+      have : st.kind = k ∧ (k = .workflow ∨ st.eid = id) := hon
+      simp [this, hwr]
+    -- prefix does not matter once a later write exists
+    clear hpost
+    induction pre with
+    | nil => simpa using this
+    | cons a rest ih => simp [storeStatus, ih]
+  · -- replay side
+    have hlog : logOf (pre ++ st :: post) = logOf pre ++ e :: logOf post := by
+      simp [logOf, List.filterMap_append, hev]
+    rw [hlog, replay_append]
+    simp only [replay, List.foldl_cons]
+    have hpost : ∀ e' ∈ logOf post, About e' k id → statusEffect k e'.etype = .none := by
+      intro e' he' ha'
+      obtain ⟨s', hs', hse⟩ := List.mem_filterMap.mp he'
+      exact hpe s' hs' e' hse ha'
+    have hun := statusOf_replay_untouched (logOf post) (apply (List.foldl apply σ (logOf pre)) e) k id hpost
+    simp only [replay] at hun
+    rw [hun]
+    obtain ⟨hk, hid⟩ := hab
+    subst hk
+    have key := statusOf_apply_effect (List.foldl apply σ (logOf pre)) e w heff
+    cases hid with
+    | inl hw => simp only [statusOf, hw] at key ⊢; exact key
+    | inr hid => subst hid; exact key
+
+/-! ### non-vacuity -/
+
+-- a log with unknown event types, an event for an unknown task and a gap in the sequence
+def sampleLog : List Event :=
+  [{ seq := 1, kind := .workflow, eid := "w", etype := .workflowStarted, ts := "t1" },
+   { seq := 2, kind := .stage, eid := "a", etype := .stageStarted, ts := "t2", data := [("ref_id", "a")] },
+   { seq := 4, kind := .task, eid := "x", etype := .taskFailed, ts := "t3", data := [("status", "TERMINAL")] },
+   { seq := 5, kind := .stage, eid := "a", etype := .jumpExecuted, ts := "t4" },
+   { seq := 7, kind := .stage, eid := "a", etype := .stageFailed, ts := "t5", data := [("status", "TERMINAL")] },
+   { seq := 9, kind := .workflow, eid := "w", etype := .workflowFailed, ts := "t6", data := [("status", "TERMINAL")] }]
+
+example : Sorted sampleLog := by simp [Sorted, sampleLog]
+example : statusOf (rebuild false sampleLog (some 4) none) .stage "a" = some "RUNNING" := by decide
+example : statusOf (rebuild false sampleLog none none) .stage "a" = some "TERMINAL" := by decide
+example : statusOf (rebuild false sampleLog none (some { seq := 4, state := rebuild false sampleLog (some 4) none })) .workflow "w"
+    = some "TERMINAL" := by decide
+-- the counterexample's two sides really differ in start_time only
+example : (rebuild false witnessLog none none).startTime = "t1"
+    ∧ (rebuild false witnessLog none (some { seq := 1, state := rebuild false witnessLog (some 1) none })).startTime = "null" := by
+  decide
+
+/-- a history in which stage "a" is covered: started (RUNNING, STAGE_STARTED), completed
+    (SUCCEEDED, STAGE_COMPLETED carrying the status), followed by steps about other entities -/
+def sampleHistory : List Step :=
+  [{ kind := .stage, eid := "a", write := some "RUNNING",
+     event := some { seq := 1, kind := .stage, eid := "a", etype := .stageStarted, ts := "t1" } },
+   { kind := .stage, eid := "a", write := some "SUCCEEDED",
+     event := some { seq := 2, kind := .stage, eid := "a", etype := .stageCompleted, ts := "t2", data := [("status", "SUCCEEDED")] } },
+   { kind := .stage, eid := "b", write := some "RUNNING",
+     event := some { seq := 3, kind := .stage, eid := "b", etype := .stageStarted, ts := "t3" } },
+   { kind := .task, eid := "t", write := some "CANCELED", event := none }]
+
+example : Covered sampleHistory .stage "a" "SUCCEEDED" := by
+  refine ⟨[sampleHistory[0]], sampleHistory[1], [sampleHistory[2], sampleHistory[3]], _, rfl, ?_, rfl, rfl, ?_, ?_, ?_, ?_⟩
+  · simp [Step.on, sampleHistory]
+  · simp [About]
+  · decide
+  · intro s' hs' hon
+    simp [sampleHistory] at hs'
+    rcases hs' with rfl | rfl <;> simp [Step.on] at hon
+  · intro s' hs' e' he' ha
+    simp [sampleHistory] at hs'
+    rcases hs' with rfl | rfl <;> simp at he'
+    subst he'
+    simp [About] at ha
+
+-- the task canceled without an event (F8) is NOT covered: store CANCELED, replay has no status
+example : storeStatus sampleHistory .task "t" = some "CANCELED"
+    ∧ statusOf (replay State.empty (logOf sampleHistory)) .task "t" = none := by decide
+
 end Stab.Props.C12
